@@ -281,7 +281,7 @@ def check(ctx):
                 "all batches of length <= 3 over {PASS, FAIL, empty, unreadable}, illegal flag combinations, --if-changed in 5 output modes; "
                 "non-trivial = inputs that formatting changes",
         "samples": samples or [{"note": "none"}],
-        "inputs": len(keys), "programs": [n for n, _ in progs], "configs": cfgs, "distinct_outcomes": outcomes,
+        "inputs": len(keys), "program_names": [n for n, _ in progs], "configs": cfgs, "distinct_outcomes": outcomes,
     }
     return {"level": LEVEL, "coverage": cov,
             "assumptions": ["reference = plain `-f` run to stdout with the same configuration"]}
